@@ -7,6 +7,8 @@ STR_LABELS = ["u", "v", "w", "xx", "y", "zed", "k9", "m", "n0"]
 def rand_hypergraph_spec(rng, nmin=3, nmax=8, emin=2, emax=10, smin=2, smax=5, labels=None, singletons=0.0):
     """{'nodes': [...], 'edges': [[...], ...]}: duplicate-free hyperedges over comparable labels."""
     n = rng.randint(nmin, nmax)
+    # "mixnum" (ints beyond 2**53 next to floats) only where a caller asks for it: the label-to-index mapping of the
+    # library (sklearn LabelEncoder, numpy arrays of labels) rounds such labels - see DESIGN 12.8, round 19
     lab = labels or rng.choice(["int", "int", "str", "bigint", "numstr"])
     if lab == "int":
         nodes = list(range(n))
@@ -17,6 +19,11 @@ def rand_hypergraph_spec(rng, nmin=3, nmax=8, emin=2, emax=10, smin=2, smax=5, l
         pool = ["1", "2", "10", "9", "03", "21", "100", "11", "20"]
         if n > len(pool):
             pool = pool + [str(i) for i in range(30, 70)]
+        nodes = rng.sample(pool, n)
+    elif lab == "mixnum":
+        pool = [0.5, 2.5, 2**60 + 1, 2**53 + 1, 3, -7.25, 10, 2**53 + 3, 6.75]
+        if n > len(pool):
+            pool = pool + [2**60 + 3 + 2 * i for i in range(40)]
         nodes = rng.sample(pool, n)
     else:
         pool = [-7, -1, 3, 10, 55, 10**9, 12, 77, 1000]
@@ -34,7 +41,11 @@ def rand_hypergraph_spec(rng, nmin=3, nmax=8, emin=2, emax=10, smin=2, smax=5, l
         if frozenset(e) not in seen:
             seen.add(frozenset(e))
             edges.append(e)
-    return {"nodes": nodes, "edges": edges, "labels": lab}
+    spec = {"nodes": nodes, "edges": edges, "labels": lab}
+    if rng.random() < 0.15:
+        # the user replaces the hypergraph-level metadata after construction (it no longer says "weighted": ...)
+        spec["hmeta"] = rng.choice([{}, {"name": "g"}, {"weighted": False, "note": 1}])
+    return spec
 
 
 def build_hypergraph(spec, weights=None, weighted=False):
@@ -46,6 +57,10 @@ def build_hypergraph(spec, weights=None, weighted=False):
             h.add_edge(tuple(e), weight=weights[i])
         else:
             h.add_edge(tuple(e))
+    if spec.get("hmeta") is not None:
+        import json
+
+        h.set_hypergraph_metadata(json.loads(json.dumps(spec["hmeta"])))
     return h
 
 
